@@ -4,8 +4,14 @@ import json, os, collections
 V = os.path.dirname(os.path.dirname(os.path.abspath(__file__)))
 rows = [json.loads(l) for l in open(os.path.join(V, "sensitivity", "RESULTS.jsonl"))]
 last = {}
+tests = {}
 for r in rows:
     last[r["id"]] = r
+    if r.get("tests") != "skipped":
+        tests[r["id"]] = r.get("tests")     # a later re-run of the check alone (--skip-tests) keeps the verdict of the repository's tests
+for k, r in last.items():
+    if r.get("tests") == "skipped" and k in tests:
+        r["tests"] = tests[k]
 rows = sorted(last.values(), key=lambda r: (r["property"], r["id"]))
 with open(os.path.join(V, "sensitivity", "RESULTS.md"), "w") as f:
     f.write("# Hand-written mutants: last sweep\n\n`tests` = the repository's own 123 tests on the mutant; `killed` = the property's quick check exits 1 with a VIOLATION line.\n\n")
